@@ -31,6 +31,8 @@ FIXED = [
  ("C07", "134fa72", "eval:cmp-ne:absent / eval:cmp-ordering:absent|other-kind|list", "filter comparisons resolved a missing tag to Null and used the derived cross-kind order: 'x < 5' and 'x != 5' held for records without x, 'x > 5' for x == \"s\""),
  ("C08", "56417ef", "printed-text-parses-to-other-tree:and2{has[2],...}", "filter path lexer swallowed following words: 'a->b and c' parsed as the single path a->b->and->c"),
  ("C09", "f2bcd0f", "crash:stack-overflow", "unbounded recursion of the filter parser on nested parentheses ('(' x 10^4 aborts the process)"),
+ ("C17", "5f9a91b", "capi:SetAt", "haystack_value_set_list_entry_at inserted before the index instead of replacing the entry (the list grew by one)"),
+ ("C18", "f0e6773", "asan:leak (FilterParse)", "no function to free a Filter returned by haystack_filter_parse: every parsed filter leaked under the documented protocol (haystack_filter_destroy added)"),
  ("C20", "4e8a32a", "macro:$n", "display macro names needed >= 2 characters: '$a' and '${b}' never substituted"),
 ]
 KNOWN = [
